@@ -545,7 +545,9 @@ def inventory():
                     continue
                 if kind in ("arith", "div", "rem") and ls.startswith("//"):
                     continue
-                sites.append((rel, owner(m.start()), kind, " ".join(src[m.start() : m.end()].split())))
+                # a loop is recorded as a loop, whichever keyword spells it (while / loop)
+                text = "loop" if kind == "loop" else " ".join(src[m.start() : m.end()].split())
+                sites.append((rel, owner(m.start()), kind, text))
         for name, a, b in spans:
             body = src[src.find("{", a) : b]
             if re.search(r"\b(Self::|self\.)?%s\s*(::<[^>]*>)?\s*\(" % re.escape(name), body):
@@ -727,7 +729,7 @@ def gen_layouts():
     arms, default = parse_match(body, "version dispatch")
     disp = []
     for keys, rhs in arms:
-        mm = re.match(r"(?:self\.)?(\w+?)(?:_parser|Parser)?(?:::|\.)parse\(packet\)", rhs.replace(" ", ""))
+        mm = re.match(r"(?:self\.)?(\w+?)(?:_parser|Parser)?(?:::|\.)parse\(\w+\)", rhs.replace(" ", ""))
         if not mm:
             raise TranslateError("version dispatch: arm %r" % rhs)
         for k in keys:
